@@ -223,7 +223,7 @@ class Fold:
                 self.__call__(env, seq, km1, *params, _depth=depth - 1)
             ctx.assume(z3.Implies(k == 0, term == _lift(self.init(fenv, *params), None)), heavy=True)
             ctx.assume(z3.Implies(km1 == 0, prev == _lift(self.init(fenv, *params), None)), heavy=True)
-            if self.range_lo is not None:
+            if self.range_lo is not None and not getattr(ctx, 'no_range_lemma', False):
                 # range-fold emptiness lemma (by induction on k from the two defining equations, whose
                 # step leaves the accumulator unchanged for idx < lo): nothing processed yet below lo
                 ctx.assume(z3.Implies(k <= params[self.range_lo], term == _lift(self.init(fenv, *params), None)),
@@ -358,6 +358,7 @@ class _LemmaCtx:
         self.axiom_tags = set()
         self._keepalive = []
         self.heavy_mode = False
+        self.no_range_lemma = True      # lemma proofs use the two defining equations of a fold only
 
     def assume(self, f, heavy=False):
         if isinstance(f, bool):
